@@ -1,5 +1,5 @@
 INIT Init
 NEXT Next
-CONSTANTS Dump = TRUE Lite = FALSE Size = "quick"
+CONSTANTS Dump = TRUE Lite = TRUE Size = "projfull"
 INVARIANTS Inv DumpOK
 CHECK_DEADLOCK FALSE
